@@ -11,6 +11,8 @@ pub mod c09;
 pub mod c10;
 pub mod c17;
 pub mod c18;
+pub mod c25;
+pub mod c26;
 pub mod c27;
 pub mod c29;
 pub mod c35;
@@ -34,6 +36,8 @@ pub const REGISTRY: &[Entry] = &[
     Entry { id: "C10", level: "exploration", run: c10::run },
     Entry { id: "C17", level: "fault_enumeration", run: c17::run },
     Entry { id: "C18", level: "exploration", run: c18::run },
+    Entry { id: "C25", level: "exploration", run: c25::run },
+    Entry { id: "C26", level: "exploration", run: c26::run },
     Entry { id: "C27", level: "exploration", run: c27::run },
     Entry { id: "C29", level: "exploration", run: c29::run },
     Entry { id: "C35", level: "exploration", run: c35::run },
@@ -43,6 +47,7 @@ pub const REGISTRY: &[Entry] = &[
 pub fn worker_main(args: &[String]) -> i32 {
     match args.first().map(|s| s.as_str()) {
         Some("open-hold") => c10::worker(&args[1..]),
+        Some("c25") => c25::worker_main(&args[1..]),
         _ => 2,
     }
 }
